@@ -232,7 +232,7 @@ func c05Table(ws *pipe.Workspace, r *px.Runner, ti int, t *gen.OpTable, maxOps, 
 			report("parser-panic", o.Panic, "")
 			return
 		case o.Hang != "":
-			report("parser-hang", o.Hang, "")
+			report("parser-hang-"+o.HangKind, o.Hang, "")
 			return
 		case o.Incon:
 			st.Inconcl++
